@@ -149,8 +149,84 @@ def gen_traces(ctx, profile, seed, n, tags='verif', label=None, overrides=None, 
     if r.returncode != 0:
         if crash_ok:
             return dict(crash=r.stdout, profile=profile, seed=seed, n=n, env=env or {})
-        raise Infra('generator failed (%s seed %d):\n%s' % (profile, seed, r.stdout[-3000:]))
+        info = salvage_crash(ctx, h, sched, r.stdout, label, e)
+        if info is None:
+            raise Infra('generator failed (%s seed %d):\n%s\n...\n%s' % (profile, seed, r.stdout[:1500], r.stdout[-1500:]))
+        raise Crashed(info)
     return trace, sched
+
+
+class Crashed(Infra):
+    """The process died while executing a generated schedule; info describes the recovered schedule and its replay."""
+    def __init__(self, info):
+        Infra.__init__(self, 'the process died: ' + info['first'])
+        self.info = info
+
+
+def crash_site(text):
+    """(first line of the fault, first non-runtime frame of the faulting goroutine) of a Go crash dump."""
+    lines = text.splitlines()
+    first = next((l for l in lines if l.startswith('fatal error:') or l.startswith('panic:') or 'SIGSEGV' in l
+                  or l.startswith('unexpected fault address')), '')
+    start = next((i for i, l in enumerate(lines) if l.startswith('goroutine ') and ('[running]' in l or 'running' in l)), None)
+    frame = ''
+    if start is not None:
+        for l in lines[start + 1:]:
+            if not l.strip():
+                break
+            if l.startswith('\t') or l.startswith(' '):
+                continue
+            fn = l.split('(')[0]
+            if fn.startswith('runtime.') or fn.startswith('runtime/') or fn.startswith('panic') or fn.startswith('reflect.') \
+                    or fn.startswith('internal/') or fn.startswith('sync') or fn.startswith('unsafe'):
+                continue
+            frame = fn
+            break
+    return first, frame
+
+
+def salvage_crash(ctx, h, sched, out, label, env):
+    """Recover the schedule that killed the generator from its journal and replay it with every trace line flushed.
+    Returns None when the journal is unusable or the fault does not reproduce."""
+    jp = sched + '.journal'
+    if not os.path.exists(jp):
+        return None
+    header, ops = None, []
+    for l in open(jp):
+        try:
+            d = json.loads(l)
+        except ValueError:
+            break
+        if 'header' in d:
+            header, ops = d['header'], []
+        elif 'op' in d:
+            ops.append(d['op'])
+    if header is None:
+        return None
+    header['ops'] = ops
+    cs = ctx.path('crash-sched-%s.ndjson' % label)
+    ct = ctx.path('crash-trace-%s.ndjson' % label)
+    with open(cs, 'w') as f:
+        f.write(json.dumps(header) + '\n')
+    e = dict(env)
+    e['VERIF_FLUSH'] = '1'
+    r = sh([h, 'run', '-in', cs, '-out', ct], env=e, timeout=900)
+    if r.returncode == 0:
+        return None
+    # keep complete lines only
+    good = []
+    if os.path.exists(ct):
+        for l in open(ct):
+            try:
+                json.loads(l)
+                good.append(l if l.endswith('\n') else l + '\n')
+            except ValueError:
+                break
+    with open(ct, 'w') as f:
+        f.writelines(good)
+    first, frame = crash_site(r.stdout)
+    return dict(sched=cs, trace=ct, lines=len(good), nops=len(ops), last_op=ops[-1] if ops else None, first=first, frame=frame,
+                library=frame.startswith('github.com/mlange-42/arche/'), text=r.stdout[:2500], schedule=header)
 
 
 def run_schedules(ctx, sched, tags='verif', label=None):
